@@ -105,6 +105,17 @@ long syscall(long number, ...) {
     return real(number, a0, a1, a2, a3, a4, a5);
 }
 
+/* Rewind the stream to its initial state (the one derived from VERIF_HASH_SEED).  The compile
+ * children call this before each program, so that the keys a program's compilation sees depend
+ * on (seed, program) only and not on its position in a batch -- which makes a replay of the
+ * single program exact. */
+void verif_shim_reset(void) {
+    lock();
+    init_ = 0;
+    init_locked();
+    unlock();
+}
+
 /* Lets a child prove that the shim is really loaded (control probe). */
 unsigned long verif_shim_calls(void) {
     lock();
